@@ -166,14 +166,20 @@ func depthFor(r *rng, tier string) int {
 var rootLineCount int
 
 func emitRootLine(e *emitter, v, deg int, ctor string, rd radicand, k int, scale int64) {
+	if e.exhausted() {
+		return
+	}
 	rootLineCount++
-	interleave := rootLineCount%4 == 0 && k > 100
+	interleave := rootLineCount%4 == 0 && k >= 100
+	if interleave && k < 320 {
+		k = 320 // state shared between Numbers shows about a block after the interleaving point
+	}
 	num, den := rd.num, rd.den
 	if scale > 1 { // non-reduced representation through the int64 / big.Int constructors
 		num = new(big.Int).Mul(num, big.NewInt(scale))
 		den = new(big.Int).Mul(den, big.NewInt(scale))
 	}
-	res := guarded(60*time.Second, func() string {
+	res := guarded(30*time.Second, func() string {
 		n := newRoot(v, deg, ctor, num, den)
 		if n.IsZero() {
 			d, _ := n.firstDigits(3)
